@@ -294,10 +294,13 @@ class ModGen:
             nb = [b for b in range(len(spec["bundles"])) if not spec["bundles"][b].get("builtin")]
             if nb and o.bundle_ports and d.bool(50):
                 bi = d.choice(nb)
-                role = d.choice([None, "A", "B", "C"]) if spec["bundles"][bi].get("roles") else None
-                flipped = d.bool(30)
-                self.buns.append(["bp0", bi, True, flipped, role, d.choice(["ctor", "flipped"]) if flipped else "ctor"])
-                self.feats.add("bundle_port")
+                for k in range(d.weighted([(1, 70), (2, 25), (3, 5)])):
+                    if k and d.bool(40):
+                        bi = d.choice(nb)  # further bundle ports are mostly of the same definition
+                    role = d.choice([None, "A", "B", "C"]) if spec["bundles"][bi].get("roles") else None
+                    flipped = d.bool(30)
+                    self.buns.append(["bp%d" % k, bi, True, flipped, role, d.choice(["ctor", "flipped"]) if flipped else "ctor"])
+                    self.feats.add("bundle_port" if not k else "several_bundle_ports")
             for k in range(d.int(0, 2)):
                 if nb:
                     bi = d.choice(nb)
